@@ -36,7 +36,7 @@ def targets(t):
     return [Sym.of(x) for x in numpy.asarray(t, dtype=object).reshape(-1).tolist()]
 
 
-def run_symbolic(sh, c_, ks, nv, frame=None):
+def run_symbolic(sh, c_, ks, nv, frame=None, all_paths=False):
     """Real ShearElasticModulusPhononContribution for key ks on a symbolic tensor; frame = None (computed by the code)
     or (perm, signs, rot) applied to the computed exact frame and injected through the LazyProperty cache."""
     ctx = S.current()
@@ -82,17 +82,33 @@ def run_symbolic(sh, c_, ks, nv, frame=None):
             return dict(target=o.get_target_elastic_modulus(), sr=sr, mk=mk, mkr=mkr, T=T, lam=lam, bad_rot=bad_rot,
                         fs=o.fictitious_strain)
 
-    res = X.run_single_path(fn, name="C03:" + ks)
-    res["C"] = C
-    res["strain"] = strain
-    res["proxy"] = proxy
-    return res
+    paths = X.explore(fn, name="C03:" + ks, max_paths=8)
+    out = []
+    for p in paths:
+        if p.exception is not None:
+            if len(paths) == 1:
+                raise p.exception
+            out.append((p, None))
+            continue
+        res = p.result
+        res["C"] = C
+        res["strain"] = strain
+        res["proxy"] = proxy
+        out.append((p, res))
+    if all_paths:
+        return out
+    if len(out) != 1:
+        raise SymError("C03:%s: a guard was not decided by the assumptions (unexpected fork)" % ks)
+    return out[0][1]
 
 
-def real_run(sh, c_, ks, rng, nv=2):
-    """Stage R: the real class with real numpy on a random float tensor."""
+def real_run(sh, c_, ks, rng, nv=2, given=None):
+    """Stage R: the real class with real numpy on a random float tensor (or on the tensor / strains of a solver model)."""
     C = {k: rng.uniform(-50, 300) for k in KEYS}
     strain = numpy.array([[rng.uniform(0.1, 0.6) for _ in range(3)] for _ in range(nv)])
+    if given:
+        C = {k: float(given.get("C" + k[1:], C[k])) for k in KEYS}
+        strain = numpy.array([[float(given.get("e_%d_%d" % (iv, a), strain[iv, a])) for a in range(3)] for iv in range(nv)])
     key = c_(ks[1:])
     o = sh.ShearElasticModulusPhononContribution(strain, key)
     T = numpy.asarray(o.transformation_matrix)
@@ -115,7 +131,31 @@ def check_key(chk, sh, c_, ks, tier, rng):
     ctx = new_context()
     t0 = time.time()
     try:
-        base = run_symbolic(sh, c_, ks, nv)
+        all_ = run_symbolic(sh, c_, ks, nv, all_paths=True)
+        if len(all_) > 1:
+            # the code evaluates a guard on the data: the target identity must hold on both sides of it
+            for pi, (p, r) in enumerate(all_):
+                with X.path_assumptions(p):
+                    if r is None:
+                        v, env = Z.satisfiable([], name="%s:raising-path" % ks)
+                        chk.obligation("%s:target==C_key[path %d of %d]" % (ks, pi, len(all_)), "sat", kind="identity",
+                                       detail="raises %s" % type(p.exception).__name__)
+                        replay(chk, sh, c_, ks, rng, "raises on a data-dependent path", env=env)
+                        return
+                    for iv, tgt in enumerate(targets(r["target"])):
+                        v, env = Z.prove_zero(tgt - r["C"][ks], name="%s:target==C[path %d,v%d]" % (ks, pi, iv), timeout_ms=20000)
+                        if v != "unsat":
+                            chk.obligation("%s:target==C_key[path %d of %d: %s]" % (ks, pi, len(all_), [X.cond_str(c)[:60] for c in p.path_condition()][:1]),
+                                           v, kind="identity")
+                            if v == "sat":
+                                replay(chk, sh, c_, ks, rng, "target differs from C_%s on a data-dependent path" % ks[1:], env=env)
+                            else:
+                                chk.inconclusive(ks, "target identity unknown on path %d" % pi)
+                            return
+            chk.note("%s: %d data-dependent paths, target identity holds on each" % (ks, len(all_)))
+            chk.inconclusive(ks, "the code forks on the data (%d paths); frame-variant obligations are written for a single path" % len(all_))
+            return
+        base = all_[0][1]
     except SymError as e:
         chk.inconclusive(ks, "symbolic run: %s" % e)
         return
@@ -251,10 +291,12 @@ _replayed = set()
 def replay(chk, sh, c_, ks, rng, what, env=None, strain_only=False):
     if ks in _replayed:
         return
-    for attempt in range(4):
+    for attempt in range(5):
+        if attempt == 0 and not env:
+            continue
         try:
             with numpy.errstate(all="ignore"):
-                C, strain, got, sr, T, mk = real_run(sh, c_, ks, rng)
+                C, strain, got, sr, T, mk = real_run(sh, c_, ks, rng, given=env if attempt == 0 else None)
         except Exception as e:
             _replayed.add(ks)
             chk.violation("%s:raises" % ks, "real ShearElasticModulusPhononContribution(%s) raises %s: %s" % (ks, type(e).__name__, str(e)[:150]),
@@ -266,7 +308,8 @@ def replay(chk, sh, c_, ks, rng, what, env=None, strain_only=False):
             chk.violation("%s:complex" % ks, "target of %s has a non-zero imaginary part" % ks, dict(key=ks, tensor=C))
             return
         gotr = numpy.real(got).reshape(-1)
-        if numpy.abs(gotr - C[ks]).max() > 1e-7 * 300:
+        scale = max(abs(x) for x in C.values())
+        if numpy.abs(gotr - C[ks]).max() > 1e-10 * scale + 1e-300:
             _replayed.add(ks)
             chk.violation("%s:deviates" % ks, "real shear solver returns %s for %s of a tensor whose component is %.10g"
                           % (gotr.tolist(), ks, C[ks]), dict(key=ks, tensor=C, strain=strain.tolist()))
